@@ -119,4 +119,42 @@ example : countDerivations g toks3 0 = 1 := by decide +kernel
 
 end C05Ex
 
+/-! ## without cycles the counts are the numbers of *all* derivations -/
+
+/-- ambiguity of the input = at least two entries -/
+theorem two_le_length_derivations_acyclic {g : Grammar} {toks : List Nat} (hc : ¬ Cyclic g)
+    (hr : g.symsInRange = true) :
+    2 ≤ (derivations g toks).length ↔
+      ∃ p q, p ≠ q ∧ PT.IsDerivation g toks p ∧ PT.IsDerivation g toks q := by
+  rw [two_le_length_iff_of_nodup (derivations_nodup g toks)]
+  simp only [derivations_complete hc hr]
+
+/-- exactly one derivation = exactly one entry -/
+theorem length_derivations_eq_one_acyclic {g : Grammar} {toks : List Nat} (hc : ¬ Cyclic g)
+    (hr : g.symsInRange = true) :
+    (derivations g toks).length = 1 ↔
+      ∃ p, PT.IsDerivation g toks p ∧ ∀ q, PT.IsDerivation g toks q → q = p := by
+  rw [length_eq_one_iff_of_nodup (derivations_nodup g toks)]
+  simp only [derivations_complete hc hr]
+
+/-- no derivation = no entry -/
+theorem derivations_eq_nil_acyclic {g : Grammar} {toks : List Nat} (hc : ¬ Cyclic g)
+    (hr : g.symsInRange = true) :
+    derivations g toks = [] ↔ ¬ ∃ p, PT.IsDerivation g toks p := by
+  rw [List.eq_nil_iff_forall_not_mem]
+  simp only [derivations_complete hc hr, not_exists]
+
+namespace C05Ex
+open C02Ex
+
+example : ∃ p q, p ≠ q ∧ PT.IsDerivation g toks3 p ∧ PT.IsDerivation g toks3 q :=
+  (two_le_length_derivations_acyclic g_acyclic (by decide)).1 (by decide +kernel)
+example : ∃ p, PT.IsDerivation g toks p ∧ ∀ q, PT.IsDerivation g toks q → q = p :=
+  (length_derivations_eq_one_acyclic g_acyclic (by decide)).1 (by decide +kernel)
+/-- `a +` is not a sentence -/
+example : ¬ ∃ p, PT.IsDerivation g [2, 3, 1] p :=
+  (derivations_eq_nil_acyclic g_acyclic (by decide)).1 (by rfl)
+
+end C05Ex
+
 end Yaep
